@@ -1,7 +1,9 @@
 import DoviModel.Model.Export
+import DoviModel.Model.Json
+import DoviModel.Proofs.EditGenProof
 /-! # C16 — info/export are faithful views -/
 namespace Dovi.C16
-open Dovi Dovi.Export
+open Dovi Dovi.Export Dovi.Editor Dovi.EditGenProof
 
 /-- every listed scene index is a frame whose scene-refresh flag is 1 -/
 theorem scenes_sound (l : List Rpu) (i : Nat) (h : i ∈ scenes l) :
@@ -50,5 +52,135 @@ theorem scenes_ascending (l : List Rpu) : (scenes l).Pairwise (· < ·) := by
         have hz : ((List.range l.length).zip l).map Prod.fst = List.range l.length := by
           simp [List.map_fst_zip]
         rw [hz]; exact this))
+
+/-! ## scene list: exactly the flagged frames -/
+
+/-- **scenes_exact** — `export -d scenes` is *exactly* the ascending list of the 0-based positions whose frame
+has DM data with `scene_refresh_flag = 1` (`cutAt l i`): nothing missing, nothing extra, no repetition -/
+theorem scenes_exact (l : List Rpu) : scenes l = (List.range l.length).filter (cutAt l) :=
+  scenes_eq_filter l
+
+/-- completeness in the form matching `scenes_sound`: every flagged frame is listed -/
+theorem scenes_complete (l : List Rpu) (i : Nat) (r : Rpu) (d : DmData) (hi : l[i]? = some r)
+    (hd : r.vdr_dm_data = some d) (hf : d.scene_refresh_flag = 1) : i ∈ scenes l := by
+  rw [scenes_exact, List.mem_filter]
+  have hlt : i < l.length := (List.getElem?_eq_some_iff.mp hi).1
+  exact ⟨List.mem_range.mpr hlt, by simp [cutAt, hi, isCut, hd, hf]⟩
+
+/-- sound and complete in one statement -/
+theorem mem_scenes_iff (l : List Rpu) (i : Nat) :
+    i ∈ scenes l ↔ ∃ r d, l[i]? = some r ∧ r.vdr_dm_data = some d ∧ d.scene_refresh_flag = 1 :=
+  ⟨scenes_sound l i, fun ⟨r, d, h1, h2, h3⟩ => scenes_complete l i r d h1 h2 h3⟩
+
+/-- the number of scenes reported by `info --summary` is the number of flagged frames -/
+theorem summary_sceneCount (l : List Rpu) :
+    (summary l).sceneCount = ((List.range l.length).filter (cutAt l)).length := by
+  simp [summary, scenes_exact]
+
+/-- hypotheses are satisfiable: a three-frame list with cuts at 0 and 2 -/
+example :
+    let f (flag : Nat) : Rpu := { vdr_dm_data := some { scene_refresh_flag := flag } }
+    scenes [f 1, f 0, f 1] = [0, 2] := by decide
+
+/-! ## level-5 export: the round trip through the editor -/
+
+/-- the round trip for an arbitrary key text. `key s e` is the text of the range key; the one fact used about it
+(`KeyOk`) is that the editor's `range_string_to_tuple` reads it back as `(s, e)` and that it is not the word `all`.
+The order in which the `BTreeMap` holds the keys (`"10-19" < "2-9"`) is covered: the ranges are disjoint, so the
+last covering edit is the only one. -/
+theorem l5_export_replays_key (key : Nat → Nat → String) (l target : List Rpu) (hkey : KeyOk l.length key)
+    (hlen : target.length = l.length) (hwf : ∀ r ∈ l, L5Wf r) (hv : ∀ r ∈ target, HasV29 r) :
+    ∃ out, execute (l5EditorConfig key (level5Config l)) (target.map some) = .ok out ∧ out.length = l.length ∧
+      ∀ (i : Nat) (r : Rpu), l[i]? = some r → ∃ r', out[i]? = some (some r') ∧ l5Of r' = l5Of r :=
+  l5_replay key l target hkey hlen hwf hv
+
+/-- the tool's own key text, `format!("{}-{}", s, e)`, is read back by the editor's `range_string_to_tuple` as
+`(s, e)` (decimal printer, `splitOn("-")`, `parse::<usize>()` — proved, not assumed), and is never `all` -/
+theorem key_text_roundtrip (s e : Nat) (hs : s < 2 ^ 64) (he : e < 2 ^ 64) :
+    rangeTuple (Str.fmtKey s e) = some (s, e) ∧ (Str.fmtKey s e).toLower ≠ "all" :=
+  ⟨Str.rangeTuple_fmtKey s e hs he, Str.fmtKey_not_all s e⟩
+
+/-- **l5_export_replays** — the key round trip of C16. Let `l` be any RPU list (of a length a `usize` can hold)
+whose L5 offsets are four non-negative numbers per frame (frames without L5 / without DM data count as
+`[0,0,0,0]`), and `target` any list of the same length whose frames have DM data with a CM v2.9 container.
+Executing the editor model with the exported config (`{"active_area": {"crop": true, "presets": …,
+"edits": {"s-e": id}}}` with the tool's key text `Str.fmtKey`) on `target` succeeds, keeps every frame, and frame
+`i` of the result has exactly the L5 offsets of frame `i` of `l`. -/
+theorem l5_export_replays (l target : List Rpu) (hsize : l.length ≤ 2 ^ 64)
+    (hlen : target.length = l.length) (hwf : ∀ r ∈ l, L5Wf r) (hv : ∀ r ∈ target, HasV29 r) :
+    ∃ out, execute (l5EditorConfig Str.fmtKey (level5Config l)) (target.map some) = .ok out ∧
+      out.length = l.length ∧
+      ∀ (i : Nat) (r : Rpu), l[i]? = some r → ∃ r', out[i]? = some (some r') ∧ l5Of r' = l5Of r :=
+  l5_replay Str.fmtKey l target (keyOk_fmtKey l.length hsize) hlen hwf hv
+
+/-- in particular replaying on the exported file itself restores it: every frame keeps its L5 offsets -/
+theorem l5_export_replays_self (l : List Rpu) (hsize : l.length ≤ 2 ^ 64) (hwf : ∀ r ∈ l, L5Wf r)
+    (hv : ∀ r ∈ l, HasV29 r) :
+    ∃ out, execute (l5EditorConfig Str.fmtKey (level5Config l)) (l.map some) = .ok out ∧
+      out.length = l.length ∧
+      ∀ (i : Nat) (r : Rpu), l[i]? = some r → ∃ r', out[i]? = some (some r') ∧ l5Of r' = l5Of r :=
+  l5_export_replays l l hsize rfl hwf hv
+
+#guard (List.range 40).all fun e => (List.range (e + 1)).all fun s =>
+  rangeTuple (Str.fmtKey s e) == some (s, e) && (Str.fmtKey s e).toLower != "all"
+
+/-- structure of the exported config, for all lists: every edit is a non-empty inclusive range inside the
+list, on which the source frames all carry the edit's preset; and the ranges cover every frame -/
+theorem l5_export_ranges (l : List Rpu) (hne : l ≠ []) :
+    (∀ t ∈ (level5Config l).2, t.1 ≤ t.2.1 ∧ t.2.1 < l.length ∧
+        ∀ j, t.1 ≤ j → j ≤ t.2.1 → ∃ r, l[j]? = some r ∧ (level5Config l).1[t.2.2]? = some (l5Of r)) ∧
+    (∀ j, j < l.length → ∃ t ∈ (level5Config l).2, t.1 ≤ j ∧ j ≤ t.2.1) :=
+  level5Config_spec l hne
+
+/-- the other hypotheses are satisfiable by a non-trivial list (two runs, a frame without L5) -/
+example :
+    let f (v : List Int) : Rpu :=
+      { vdr_dm_data := some { cmv29 := some { num_ext_blocks := 1, blocks := [{ level := 5, length := 7, vals := v }] } } }
+    let g : Rpu := { vdr_dm_data := some { cmv29 := some {} } }
+    let l := [f [0, 0, 276, 276], f [0, 0, 276, 276], g, f [1, 2, 3, 4]]
+    (∀ r ∈ l, L5Wf r) ∧ (∀ r ∈ l, HasV29 r) ∧
+    level5Config l = ([[0, 0, 276, 276], [0, 0, 0, 0], [1, 2, 3, 4]], [(0, 1, 0), (2, 2, 1), (3, 3, 2)]) := by
+  refine ⟨?_, ?_, by decide⟩
+  · intro r hr
+    simp only [List.mem_cons, List.not_mem_nil, or_false] at hr
+    rcases hr with rfl | rfl | rfl | rfl
+    · exact ⟨0, 0, 276, 276, by decide⟩
+    · exact ⟨0, 0, 276, 276, by decide⟩
+    · exact ⟨0, 0, 0, 0, by decide⟩
+    · exact ⟨1, 2, 3, 4, by decide⟩
+  · intro r hr
+    simp only [List.mem_cons, List.not_mem_nil, or_false] at hr
+    rcases hr with rfl | rfl | rfl | rfl <;> exact ⟨_, rfl, rfl⟩
+
+/-- **corner (finding)**: the round trip needs the target frames to have a CM v2.9 container. On a target frame
+without DM data the replay "succeeds" but the frame keeps zero offsets — the exported offsets are silently not
+applied (`set_active_area_offsets` is a no-op without `vdr_dm_data`) -/
+theorem l5_replay_corner_no_dm :
+    let src : Rpu :=
+      { vdr_dm_data := some { cmv29 := some { num_ext_blocks := 1, blocks := [{ level := 5, length := 7, vals := [1, 2, 3, 4] }] } } }
+    let tgt : Rpu := {}
+    ∃ r', execute (l5EditorConfig Str.fmtKey (level5Config [src])) [some tgt] = .ok [some r'] ∧
+      l5Of r' = [0, 0, 0, 0] ∧ l5Of src = [1, 2, 3, 4] := by
+  obtain ⟨hk1, hk2⟩ := key_text_roundtrip 0 0 (by decide) (by decide)
+  have hcfg : level5Config [({ vdr_dm_data := some { cmv29 := some { num_ext_blocks := 1, blocks := [{ level := 5, length := 7, vals := [1, 2, 3, 4] }] } } } : Rpu)]
+      = ([[1, 2, 3, 4]], [(0, 0, 0)]) := by decide
+  refine ⟨{ modified := true }, ?_, by decide, by decide⟩
+  simp only [hcfg]
+  simp [execute, l5EditorConfig, mapSome, executeSingle, activeAreaSingle, Rpu.crop, Res.bind, asMap, insertByKey,
+    activeAreaSingle.go, hk2, activeAreaRanges, hk1, presetsFrom, presetOf, mapRange, mapRange.go, setOffsets, withDm]
+
+/-! ## export all -/
+
+/-- `export -d all`: the JSON array of the per-frame views (`Rpu.toJson` = what `info -f i` prints; the model
+has no separate definition for the array, the harness compares element `i` with `info -f i` on the real CLI) -/
+def exportAll (l : List Rpu) : Json := .arr (l.map Rpu.toJson)
+
+/-- **export_all_length_order** — one element per RPU, in file order, each the frame's `info -f` view -/
+theorem export_all_length_order (l : List Rpu) :
+    ∃ js, exportAll l = .arr js ∧ js.length = l.length ∧ ∀ i : Nat, js[i]? = (l[i]?).map Rpu.toJson :=
+  ⟨l.map Rpu.toJson, rfl, by simp, fun i => by simp⟩
+
+/-- the summary's frame count is the list length -/
+theorem summary_count (l : List Rpu) : (summary l).count = l.length := by simp [summary]
 
 end Dovi.C16
